@@ -20,7 +20,7 @@ kind=server  : `cfg=<hex|-> peers=<addr hex>;<addr hex> hellos=H;H;… steps=<st
                or `<a|b>:w:<ms>` (the peer stays silent for that long)
                optional case token `rto=<ms>` = InitialRetransmitTimeout (max = 2x), default: never
                cookie ref = `-` | `k<i>` (cookie of the i-th HelloVerifyRequest seen) | `x<i>.<pos>` | `r`
-   observed  : `steps=<r>,<r>,… flight=<types>/<keyops>|-`
+   observed  : `steps=<r>,<r>,… flight=<types>/<keyops>|- cb=<GetConfigForClient calls before the accepted hello>`
                r = `<datagrams>/<hs types|->/<sizes|->/<alerts>/<request bytes>/<keyops>` or `acc`
 -/
 import Gotlcp.Oracle.Common
@@ -341,8 +341,17 @@ def judgeServer (ct ot : List String) : Option Verdict := do
           | _, _ => some ("shape", "unparseable flight")
         | _ => some ("shape", "missing flight")
       else none
-  let model := s!"steps={",".intercalate outs} flight={flight}"
-  pure { model := model, spec := fail2, trivial := steps.isEmpty }
+  -- application callbacks (Config.GetConfigForClient, counted by the driver) before the accepted
+  -- hello: none when the callback is not reachable before the loop exits (regenerated fact)
+  let cbModel := if Facts.dtlcp.cookiePreReachable.contains "GetConfigForClient" then "?" else "0"
+  let fail3 := match fail2 with
+    | some x => some x
+    | none => match kvNat ot "cb" with
+      | some 0 => none
+      | some n => some ("callback-before-cookie", s!"{n} application callback(s) (GetConfigForClient) ran before a valid cookie")
+      | none => some ("shape", "missing cb")
+  let model := s!"steps={",".intercalate outs} flight={flight} cb={cbModel}"
+  pure { model := model, spec := fail3, trivial := steps.isEmpty }
 
 def judge (c o : String) : Option Verdict := do
   let ct := tokens c
